@@ -32,15 +32,16 @@ OPS = [
      'proofs': [{'before': 'let ipp_tag', 'text': 'proof { axiom_value_tag_from(value_tag as int); }'}]},
     # loop_isolation(false): what is known before a loop (locals bound outside it) stays known inside, so that hoisting
     # `let n = list.len();` out of the loop does not lose the proof
-    {'op': 'fn', 'path': 'IppValue::to_bytes', 'ret': 'r', 'attrs': ['#[verifier::loop_isolation(false)]'],
+    {'op': 'fn', 'path': 'IppValue::to_bytes', 'ret': 'r',
+     'bind': {'BUF': r'let\s+mut\s+(\w+)\s*=\s*BytesMut::(?:new|with_capacity)\s*\('}, 'attrs': ['#[verifier::loop_isolation(false)]'],
      'loops': {1: {'iter_name': 'it', 'spec': '''
         invariant
             *self matches IppValue::Collection(m0) && m0@ == list@,
             size_ok(aval(*self)),
             bt_iter_facts(list@, it_rem(it.snapshot@)),
-            wf16(aval(*self)) ==> buf_seq(&buffer) == enc16(0) + members_enc(aval(*self)->members, it.index@ as nat),
+            wf16(aval(*self)) ==> buf_seq(&$BUF) == enc16(0) + members_enc(aval(*self)->members, it.index@ as nat),
 '''}},
-     'proofs': [{'before': 'buffer.put(item.to_bytes());', 'optional': True,
+     'proofs': [{'before': '$BUF.put(item.to_bytes());', 'optional': True,
                  'text': '''proof { // termination: the element is a sub-term of *self
                         let ghost l0 = self->Array_0; vstd::std_specs::vec::axiom_vec_index_decreases(l0, i as int); }'''},
                 {'before': 'for item in list.iter()', 'optional': True,
@@ -68,7 +69,7 @@ OPS = [
                 && size_ok(aval(list@[i as int])) && (wf16(aval(*self)) ==> wf16(aval(list@[i as int]))),
             i + 1 < list@.len() ==> (aval(*self)->elems)[i + 1] == aval(list@[i + 1]),
             (aval(*self)->elems).len() == list@.len(),
-            wf16(aval(*self)) ==> buf_seq(&buffer) == set_enc_sep(aval(*self)->elems, i as nat),
+            wf16(aval(*self)) ==> buf_seq(&$BUF) == set_enc_sep(aval(*self)->elems, i as nat),
         decreases list@.len() - i,'''}],
      },
 ]
